@@ -116,7 +116,7 @@ def chunk_rule(prog, rep):
     rets = [n for n in fi.node.body if isinstance(n, ast.Return)]
     acc = norm(rets[0].value) if rets else None
     rep.check(norm(lp.iter) == fi.params[0], "SUM", fi.short, "iteration", "over the input in order", f"iterates over `{norm(lp.iter)}`", fi.loc(lp))
-    ifs = [n for n in lp.body if isinstance(n, ast.If) and n.orelse]
+    ifs = [n for n in lp.body if isinstance(n, ast.If) and n.orelse and "subevents" in norm(n)]
     if len(ifs) != 1:
         rep.undecided("SUM", fi.short, "extend/open dispatch", f"{len(ifs)} if/else in the loop body", fi.loc(lp))
         return
